@@ -98,8 +98,8 @@ def main():
         "engines": [
             {"name": "xv", "path": "harness/", "serves_properties": sorted(b),
              "kind_free_text": "Rust binary: proptest TestRunner over choice sequences (shrinking, fixed seed), systematic enumerators, worker processes, two build profiles (overflow checks on/off)"},
-            {"name": "libfuzzer", "path": "fuzz/", "serves_properties": [p for p in ["C04", "C08", "C16"] if p in b],
-             "kind_free_text": "cargo-fuzz targets sharing the harness decoders and oracles (thorough tier only)"},
+            {"name": "libfuzzer", "path": "fuzz/", "serves_properties": sorted(b),
+             "kind_free_text": "one cargo-fuzz / libFuzzer target (ASan, debug assertions) that feeds its input bytes as the choice sequence of the selected property's generator + oracle (XV_PROP); thorough tier only, 16 processes with fixed run counts; artifacts are replayed strictly, reduced and saved as replay files"},
         ],
         "checks": checks,
         "not_applicable": na,
